@@ -11,7 +11,7 @@ INF = float("inf")
 ISIZE_MAX = 2 ** 63 - 1
 
 LEN_FNS = {"Vec::len", "slice::len", "str::len", "String::len", "HashMap::len", "HashSet::len", "VecDeque::len",
-           "[u8]::len"}
+           "[u8]::len", "BTreeMap::len", "BTreeSet::len"}
 EMPTY_FNS = {"Vec::is_empty", "slice::is_empty", "str::is_empty", "String::is_empty", "HashMap::is_empty"}
 # length-preserving views: result refers to the same container as arg0
 VIEW_FNS = {"Deref::deref", "DerefMut::deref_mut", "Vec::as_slice", "Vec::as_mut_slice", "AsRef::as_ref",
@@ -79,8 +79,9 @@ def _mentions(term, pref):
 class Ctx:
     """crate-wide context: bodies, summaries, never-written fields, parameter constant summaries"""
 
-    def __init__(self, crate):
+    def __init__(self, crate, closed_world=False):
         self.crate = crate
+        self.closed_world = closed_world
         self.bodies = {}
         self.summaries = {}
         self._in_progress = set()
@@ -653,6 +654,8 @@ class Interp:
                 st.ranges[lt] = (d[1], d[2])
             elif kind == "clos":
                 st.clos[lt] = d[1]
+            elif kind == "termiv":
+                st.iv[d[1]] = (d[2], d[3])
             elif kind == "copyfacts":
                 self.copy_facts(st, d[1], lt)
             elif kind == "tuplefacts":
@@ -671,6 +674,13 @@ class Interp:
         lty = self.lty(lhs[0]) if lhs[1] == [] else None
         if k == "use":
             op = rv[1]
+            if op[0] == "const" and "static" in op[1]:
+                tt = "static:" + op[1]["static"]
+                out = [("ref", tt, False)]
+                val = self.ctx.crate.consts.get(op[1]["static"])
+                if isinstance(val, int):
+                    out.append(("termiv", tt, val, val))
+                return out
             v = self.op_val(op, st)
             if isinstance(v, int):
                 return [("iv", v, v)]
@@ -955,7 +965,7 @@ class Interp:
         non-exported function (constants or values bounded in the caller)"""
         b = self.b
         f = b.fn
-        if f.get("exported") or self.depth > 2:
+        if (f.get("exported") and not self.ctx.closed_world) or self.depth > 2:
             return
         sites = self.ctx.call_sites(f)
         if not sites:
@@ -1139,6 +1149,14 @@ class Interp:
                 itt = self.container(args[0], st)
                 v00 = self.op_val(args[0], st)
                 pre_iters = st.iters.get(itt) or (st.iters.get(v00) if isinstance(v00, str) else None)
+        pre_variant = None
+        if "fn" in t and args and callee_key(t["fn"]).split("@")[0] in ("Option::as_mut", "Option::as_ref", "Option::as_deref", "Option::as_deref_mut"):
+            c_ = self.container(args[0], st)
+            pre_variant = st.variants.get(c_) if c_ else None
+        pre_len_ge1 = False
+        if "fn" in t and args and callee_key(t["fn"]).split("@")[0] == "Vec::pop":
+            c_ = self.container(args[0], st)
+            pre_len_ge1 = bool(c_) and self.iv_of("len:" + c_, st)[0] >= 1
         dec = None
         if "fn" in t and path_is_decode_string(t["fn"]) and len(args) >= 2:
             # decoder contract (checked per impl by C17): *cursor advances by at most data.len()
@@ -1170,11 +1188,14 @@ class Interp:
         base = key.split("@")[0]
         meth = base.split("::")[-1]
 
-        if base in LEN_FNS or (meth == "len" and base.split("::")[0] in ("Vec", "slice", "str", "String", "HashMap", "HashSet")):
+        if base in LEN_FNS or (meth == "len" and base.split("::")[0] in ("Vec", "slice", "str", "String", "HashMap", "HashSet", "BTreeMap")):
             c = self.container(a0, st)
+            esz = [x for x in (fn.get("garg_sizes") or []) if isinstance(x, int) and x > 0]
+            hi = ISIZE_MAX // esz[0] if (esz and base.startswith(("Vec::", "slice::"))) else ISIZE_MAX
             if c:
                 self.add_eq(st, dt, "len:" + c, 0)
-            self.set_iv(st, dt, 0, ISIZE_MAX)
+                self.set_iv(st, "len:" + c, 0, hi)
+            self.set_iv(st, dt, 0, hi)
             return
         if base in EMPTY_FNS:
             c = self.container(a0, st)
@@ -1230,6 +1251,17 @@ class Interp:
                 self._hull_into(st, dt, [p])
             else:
                 self._hull_into(st, dt, [p, v1])
+            return
+        if base == "Option::or" and isinstance(v0, str) and isinstance(v1, str):
+            va_, vb_ = st.variants.get(v0), st.variants.get(v1)
+            if vb_ == 1:
+                st.variants[dt] = 1
+                if va_ == 0:
+                    self._hull_into(st, dt + "@1.0", [v1 + "@1.0"])
+                elif va_ == 1:
+                    self._hull_into(st, dt + "@1.0", [v0 + "@1.0"])
+                else:
+                    self._hull_into(st, dt + "@1.0", [v0 + "@1.0", v1 + "@1.0"])
             return
         if base in ("Option::map_or", "Option::map_or_else", "Option::unwrap_or_else", "Option::unwrap_or_default"):
             return
@@ -1323,6 +1355,15 @@ class Interp:
             if c and v1 is not None:
                 st.cond.setdefault((dt, 1), []).append(("le", v1, "len:" + c, -1))
                 st.cond.setdefault((dt, 0), []).append(("le", "len:" + c, v1, 0))
+            return
+        if base == "Vec::pop":
+            c = self.container(a0, st) if a0 else None
+            if pre_len_ge1:
+                st.variants[dt] = 1
+            return
+        if base in ("Option::as_mut", "Option::as_ref", "Option::as_deref", "Option::as_deref_mut"):
+            if pre_variant is not None:
+                st.variants[dt] = pre_variant
             return
         if base in ("Option::is_some", "Option::is_none", "Result::is_ok", "Result::is_err"):
             if a0 and a0[0] in ("copy", "move"):
